@@ -450,8 +450,9 @@ def part_a(ctx, bins_future, pool, rnd):
                              "race_report.txt": r.get("race_text", ""), "crash.txt": r.get("crash_text", "")}, key=key)
     ctx.extra["wall_part_a_s"] = round(time.time() - ctx.t0, 1)
     ctx.traces += len(recs)
-    ctx.sample({"parmap_schedule": scheds[min(len(scheds) - 1, 40)],
-                "record": {k: v for k, v in recs[min(len(recs) - 1, 40)].items() if k != "race_text"}})
+    if recs:
+        ctx.sample({"parmap_schedule": scheds[min(len(scheds) - 1, 40)],
+                    "record": {k: v for k, v in recs[min(len(recs) - 1, 40)].items() if k != "race_text"}})
     ctx.extra.update({
         "parmap_safety_liveness_states": {"N%d_W%d" % (r["n"], r["w"]): r["distinct"] for r in mc},
         "parmap_export_states": {"N%d_W%d" % (r["n"], r["w"]): r["distinct"] for r in hist if not r["sim"]},
